@@ -531,7 +531,7 @@ fn send_side(cfg: &Cfg, rng: &mut Rng) {
         if !cfg.mine(round) {
             continue;
         }
-        for sender in 0..4u32 {
+        for sender in 0..5u32 {
             // --- build the endpoint with a minimal, non-blocking send buffer
             let who;
             let peer;
@@ -657,6 +657,43 @@ fn send_side(cfg: &Cfg, rng: &mut Rng) {
                             if dm {
                                 res.push_str(if g.set_dmabuf_scanout(&VhostUserGpuDMABUFScanout::default(), Some(&file)).is_ok() { "ok," } else { "ERR," });
                             }
+                        }
+                        d2.store(true, Ordering::SeqCst);
+                        res
+                    });
+                }
+                4 => {
+                    // the shared sender itself (hook verif_send_with_payload): messages that are both
+                    // larger than one socket buffer segment and descriptor-carrying, which no
+                    // public operation produces today
+                    who = "endpoint";
+                    let (a, p) = sys::pair();
+                    send_fd = a.as_raw_fd();
+                    sys::set_sndbuf(send_fd, 1);
+                    sys::set_nonblocking(send_fd, true);
+                    let mut work: Vec<(u64, Vec<u8>, usize)> = Vec::new();
+                    for i in 0..8u64 {
+                        let len = if i == 0 { 16 } else { rng.range(2300, 4096 - 8) as usize };
+                        let nfds = if i % 4 == 3 { 0 } else { rng.range(1, 8) as usize };
+                        let payload = rng.bytes(len);
+                        let mut body = spec::W::new().u64(i ^ 0x5a5a).done();
+                        body.extend_from_slice(&payload);
+                        if nfds > 0 {
+                            expect_fd_offs.push((expect.len(), nfds));
+                        }
+                        expect.extend_from_slice(&spec::msg(spec::fe::SET_LOG_BASE, F_VERSION1, &body));
+                        work.push((i ^ 0x5a5a, payload, nfds));
+                    }
+                    peer = p;
+                    handle = std::thread::spawn(move || {
+                        let files: Vec<std::fs::File> = (0..8).map(|_| sys::memfd("ep", 4096)).collect();
+                        let raw: Vec<RawFd> = files.iter().map(|f| f.as_raw_fd()).collect();
+                        let mut res = String::new();
+                        for (b, payload, nfds) in work {
+                            let sock = a.try_clone().expect("clone");
+                            let fds = if nfds > 0 { Some(&raw[..nfds]) } else { None };
+                            let r = vhost::vhost_user::verif_send_with_payload(sock, vhost::vhost_user::message::FrontendReq::SET_LOG_BASE, b, &payload, fds);
+                            res.push_str(if r.is_ok() { "ok," } else { "ERR," });
                         }
                         d2.store(true, Ordering::SeqCst);
                         res
